@@ -1,6 +1,6 @@
-(* IPA open_combinations -> check_combinations: complete end to end (free-module view), for combinations of polynomials without
-   degree bounds under distinct labels (a degree-bounded polynomial may only stand alone with coefficient one; that case is the
-   plain batch flow).  The prover's combined (polynomial, randomness, commitment) triples are commitments in the sense the
+(* IPA open_combinations -> check_combinations: complete end to end (free-module view), for EVERY set of combinations under distinct
+   labels on which the prover succeeds: combinations of polynomials without degree bounds, and a degree-bounded polynomial alone
+   with coefficient one (the bound policy refuses everything else, prover_cases).  The prover's combined (polynomial, randomness, commitment) triples are commitments in the sense the
    opening needs (sem_honest), the verifier's loop follows the prover's and builds the same flat commitment list, the constants
    it moves out of the claims leave the evaluations of the combined polynomials, and the batch completeness theorem concludes. *)
 From Coq Require Import List Arith NArith Bool Lia Field Ring.
@@ -87,49 +87,128 @@ Section IPALCComplete.
     lp_label (fst (fst pc)) = fst l /\ fst (snd pc) = fst l /\ sem_honest d (item_of pc) /\
     forall x, eval (lp_poly (fst (fst pc))) x + lc_const (snd l) = lc_value (i_poly_of lm x) (snd l).
 
-  Lemma i_all_follow (lm : LM) cm : il_honest lm -> il_agree lm cm -> forall lcs ps info flat ev,
-    (forall lab terms, In (lab, terms) lcs -> unbounded lm terms) ->
-    ilc_prover_all lm lcs = Ok (ps, info, flat) ->
-    exists lcm, ilc_verifier_all cm lcs ev = Ok (info, flat, ev_sub3_all lcs ev) /\
-                construct_lcomms info flat = Ok lcm /\
-                length ps = length lcs /\ length lcm = length lcs /\
-                Forall2 (irelated lm) lcs (combine ps lcm).
+  (* ---- which combinations the prover accepts: polynomials without degree bounds, or one degree-bounded polynomial alone with
+     coefficient one (the bound policy refuses everything else) ---- *)
+  Lemma loop_num_ne1 (lm : LM) num : num <> 1%nat -> forall terms a a', ilc_prover_loop lm num terms a = Ok a' -> unbounded lm terms.
   Proof.
-    intros Hh Ha. induction lcs as [|[lab terms] t IH]; intros ps info flat ev Hu H; cbn [ilc_prover_all] in H.
-    - injection H as <- <- <-. exists []. cbn [ilc_verifier_all ev_sub3_all construct_lcomms combine length]. repeat split; constructor.
-    - set (a0 := {| ia_poly := []; ia_bound := None; ia_hiding := None; ia_rand := 0; ia_srand := None; ia_cc := []; ia_cs := None |}) in *.
-      destruct (ilc_prover_loop lm (length terms) terms a0) as [a| |] eqn:El; cbn [bind] in H; try discriminate.
-      destruct (ilc_prover_all lm t) as [[[ps1 info1] flat1]| |] eqn:Er; cbn [bind] in H; try discriminate.
-      injection H as <- <- <-.
-      assert (Hu0 : unbounded lm terms) by (apply (Hu lab); left; reflexivity).
-      destruct (IH ps1 info1 flat1 (ev_sub3 lab terms ev) (fun l0 t0 Hin => Hu l0 t0 (or_intror Hin)) eq_refl) as (lcm1 & Ev & Ec & L1 & L2 & HF).
+    intros Hn. induction terms as [|[c0 [|l]] t IH]; intros a a' H; cbn [ilc_prover_loop] in H.
+    - intros ? ? ? ? ? [].
+    - intros co0 l0 lp st c [E|Hin]; [discriminate E|]. exact (IH _ _ H co0 l0 lp st c Hin).
+    - destruct (lookup N.compare l lm) as [[[lp st] cm]|] eqn:El; [|discriminate].
+      destruct (lp_bound lp) as [b|] eqn:Eb.
+      + cbn [bound_policy] in H. destruct (Nat.eqb_spec num 1); [contradiction|]. cbn [bind] in H. discriminate.
+      + cbn [bound_policy bind] in H. intros co0 l0 lp0 st0 c [E|Hin] Hl0.
+        * injection E as _ <-. rewrite El in Hl0. injection Hl0 as <- _ _. exact Eb.
+        * exact (IH _ _ H co0 l0 lp0 st0 c Hin Hl0).
+  Qed.
+
+  Lemma prover_cases (lm : LM) terms a0 a : ilc_prover_loop lm (length terms) terms a0 = Ok a ->
+    unbounded lm terms \/
+    exists c0 l lp st c b, terms = [(c0, TPoly l)] /\ feqb c0 f1 = true /\ lookup N.compare l lm = Some (lp, st, c) /\ lp_bound lp = Some b.
+  Proof.
+    intros H. destruct terms as [|t1 [|t2 rest]].
+    - left. intros ? ? ? ? ? [].
+    - destruct t1 as [c0 [|l]].
+      + left. intros co0 l0 lp st c [E|[]]. discriminate E.
+      + cbn [length ilc_prover_loop] in H.
+        destruct (lookup N.compare l lm) as [[[lp st] c]|] eqn:El; [|discriminate].
+        destruct (lp_bound lp) as [b|] eqn:Eb.
+        * right. cbn [bound_policy Nat.eqb] in H. destruct (feqb c0 f1) eqn:Ec; [|discriminate].
+          exists c0, l, lp, st, c, b. repeat split; assumption.
+        * left. intros co0 l0 lp0 st0 c1 [E|[]] Hl0. injection E as _ <-. rewrite El in Hl0. injection Hl0 as <- _ _. exact Eb.
+    - left. apply (loop_num_ne1 lm (length (t1 :: t2 :: rest))) with (a := a0) (a' := a); [cbn [length]; lia|exact H].
+  Qed.
+
+  Lemma pscale_one (p : poly) : pscale 1 p = p.
+  Proof. unfold pscale. induction p as [|x p IH]; [reflexivity|]. cbn [map]. rewrite IH. f_equal. ring. Qed.
+
+  (* one combination: the verifier's loop follows the prover's, the combined triple is a commitment in the sense the opening needs,
+     the shifted part is present exactly with a degree bound, the combined polynomial evaluates to the combination minus its constants *)
+  Lemma i_one (lm : LM) cm lab terms a ev : il_honest lm -> il_agree lm cm ->
+    ilc_prover_loop lm (length terms) terms
+      {| ia_poly := []; ia_bound := None; ia_hiding := None; ia_rand := 0; ia_srand := None; ia_cc := []; ia_cs := None |} = Ok a ->
+    ilc_verifier_loop cm lab (length terms) terms ev None [] None = Ok (ev_sub3 lab terms ev, ia_bound a, ia_cc a, ia_cs a) /\
+    match ia_bound a with Some _ => exists x, ia_cs a = Some x | None => ia_cs a = None end /\
+    sem_honest d ({| lp_label := lab; lp_poly := ia_poly a; lp_bound := ia_bound a; lp_hiding := ia_hiding a |}, ia_bound a,
+                  {| ic_comm := ia_cc a; ic_shifted := ia_cs a |}, {| ir_rand := ia_rand a; ir_shifted := ia_srand a |}) /\
+    forall x, eval (ia_poly a) x + lc_const terms = lc_value (i_poly_of lm x) terms.
+  Proof.
+    intros Hh Ha El.
+    set (a0 := {| ia_poly := []; ia_bound := None; ia_hiding := None; ia_rand := 0; ia_srand := None; ia_cc := []; ia_cs := None |}) in *.
+    destruct (prover_cases lm terms a0 a El) as [Hu0|(c0 & l & lp & st & c & b & -> & Hc & Elk & Eb)].
+    - (* polynomials without degree bounds *)
       destruct (ilc_prover_one_unbounded d lm lab terms a (il_honest_i lm Hh) Hu0 El) as (Hih & Hb & _ & Hval).
       destruct Hih as [Hco Hsh]. cbn [fst lp_poly lp_bound ir_rand ir_shifted ic_comm ic_shifted] in Hco, Hsh.
       destruct (Hsh Hb) as [Hcs Hsr].
       assert (Hz0 : hz (d + 1) (ia_poly a0)) by (apply hz_length; cbn; lia).
       destruct (i_prover_loop_extra lm (length terms) Hh terms a0 a Hu0 Hz0 (fun _ => eq_refl) El) as [Hz Hr].
       pose proof (i_verifier_follows lm cm lab (length terms) Hh Ha terms a0 a ev Hu0 El) as Ev0. cbn [a0 ia_bound ia_cc ia_cs] in Ev0.
-      exists ((lab, ({| ic_comm := ia_cc a; ic_shifted := None |}, None)) :: lcm1).
-      cbn [ilc_verifier_all]. rewrite Ev0. cbn [bind]. rewrite Ev. cbn [bind ev_sub3_all fst snd].
-      split; [reflexivity|].
-      split; [rewrite Hb, Hcs; cbn [flat_of app construct_lcomms]; rewrite Ec; reflexivity|].
-      cbn [length combine]. split; [lia|]. split; [lia|].
-      constructor; [|exact HF].
-      unfold irelated, item_of. cbn [fst snd lp_label lp_poly]. split; [reflexivity|]. split; [reflexivity|]. split; [|exact Hval].
+      split; [exact Ev0|]. split; [rewrite Hb; exact Hcs|]. split; [|exact Hval].
       unfold sem_honest. cbn [lp_bound lp_poly lp_hiding ic_comm ic_shifted ir_rand ir_shifted].
-      split; [symmetry; exact Hb|]. split.
+      split; [reflexivity|]. split.
       { rewrite Hb. unfold i_check_dab. pose proof (hz_trim_length _ _ Hz) as Lt. unfold degree.
         destruct (Nat.ltb_spec d (pred (length (trim (ia_poly a))))); [lia|reflexivity]. }
-      split; [exact Hco|]. rewrite Hb. split; [reflexivity|]. split.
+      split; [exact Hco|]. rewrite Hb. split; [exact Hcs|]. split.
       { intros Hn. split; [exact (Hr Hn)|exact Hsr]. }
       intros _. rewrite Hsr. reflexivity.
+    - (* one degree-bounded polynomial, alone, coefficient one *)
+      apply FL_eqb in Hc. subst c0.
+      pose proof (Hh l lp st c Elk) as (Ecb & Hdab & Hco & Hsh & Hnh & Hhs). rewrite Eb in Ecb, Hsh, Hhs, Hdab.
+      destruct Hsh as (sc & Esc & Hscc).
+      cbn [length ilc_prover_loop] in El. unfold a0 in El. rewrite Elk, Eb in El. cbn [bound_policy Nat.eqb] in El.
+      rewrite feqb_refl in El. cbn [bind ilc_prover_loop ia_poly ia_bound ia_hiding ia_rand ia_srand ia_cc ia_cs] in El.
+      injection El as <-. cbn [ia_poly ia_bound ia_hiding ia_rand ia_srand ia_cc ia_cs].
+      rewrite Esc. cbn [comb_opt_g].
+      assert (Ep : padd_scaled [] 1 (lp_poly lp) = lp_poly lp) by (unfold padd_scaled; cbn [padd]; apply pscale_one).
+      rewrite Ep.
+      split.
+      { cbn [length ilc_verifier_loop]. rewrite (Ha l lp st c Elk). rewrite Ecb, Esc. cbn [Bool.eqb negb bound_policy Nat.eqb].
+        rewrite feqb_refl. cbn [bind ilc_verifier_loop ev_sub3 comb_opt_g]. reflexivity. }
+      split; [eexists; reflexivity|]. split.
+      { unfold sem_honest. cbn [lp_bound lp_poly lp_hiding ic_comm ic_shifted ir_rand ir_shifted].
+        split; [reflexivity|]. split; [exact Hdab|]. split.
+        { intros i. rewrite ?co_gvadd, ?co_nil, ?co_gvscale, Hco. ring. }
+        split.
+        { eexists. split; [reflexivity|]. intros i. rewrite co_gvscale, Hscc.
+          destruct (ir_shifted st) as [x|]; cbn [comb_opt_f]; ring. }
+        split.
+        { intros Hn. assert (Hn' : lp_hiding lp = None) by (destruct (lp_hiding lp); [discriminate Hn|reflexivity]).
+          destruct (Hnh Hn') as [E1 E2]. rewrite E1, E2. cbn [comb_opt_f]. split; [ring|reflexivity]. }
+        intros Hs. assert (Hs' : is_some (lp_hiding lp) = true) by (destruct (lp_hiding lp); [reflexivity|discriminate Hs]).
+        rewrite <- (Hhs Hs'). destruct (ir_shifted st); reflexivity. }
+      intros x. cbn [lc_const lc_value term_value]. unfold i_poly_of. rewrite Elk. ring.
+  Qed.
+
+  Lemma i_all_follow (lm : LM) cm : il_honest lm -> il_agree lm cm -> forall lcs ps info flat ev,
+    ilc_prover_all lm lcs = Ok (ps, info, flat) ->
+    exists lcm, ilc_verifier_all cm lcs ev = Ok (info, flat, ev_sub3_all lcs ev) /\
+                construct_lcomms info flat = Ok lcm /\
+                length ps = length lcs /\ length lcm = length lcs /\
+                Forall2 (irelated lm) lcs (combine ps lcm).
+  Proof.
+    intros Hh Ha. induction lcs as [|[lab terms] t IH]; intros ps info flat ev H; cbn [ilc_prover_all] in H.
+    - injection H as <- <- <-. exists []. cbn [ilc_verifier_all ev_sub3_all construct_lcomms combine length]. repeat split; constructor.
+    - destruct (ilc_prover_loop lm (length terms) terms _) as [a| |] eqn:El; cbn [bind] in H; try discriminate.
+      destruct (ilc_prover_all lm t) as [[[ps1 info1] flat1]| |] eqn:Er; cbn [bind] in H; try discriminate.
+      injection H as <- <- <-.
+      destruct (IH ps1 info1 flat1 (ev_sub3 lab terms ev) eq_refl) as (lcm1 & Ev & Ec & L1 & L2 & HF).
+      destruct (i_one lm cm lab terms a ev Hh Ha El) as (Ev0 & Hshape & Hsem & Hval).
+      exists ((lab, ({| ic_comm := ia_cc a; ic_shifted := ia_cs a |}, ia_bound a)) :: lcm1).
+      cbn [ilc_verifier_all]. rewrite Ev0. cbn [bind]. rewrite Ev. cbn [bind ev_sub3_all fst snd].
+      split; [reflexivity|].
+      split.
+      { destruct (ia_bound a) as [b|].
+        - destruct Hshape as (x & ->). cbn [flat_of app construct_lcomms]. rewrite Ec. reflexivity.
+        - rewrite Hshape. cbn [flat_of app construct_lcomms]. rewrite Ec. reflexivity. }
+      cbn [length combine]. split; [lia|]. split; [lia|].
+      constructor; [|exact HF].
+      unfold irelated, item_of. cbn [fst snd lp_label lp_poly]. split; [reflexivity|]. split; [reflexivity|]. split; [exact Hsem|exact Hval].
   Qed.
 
   Theorem ipa_lc_complete lcs items cs qs ev chal hchal rng vtape pfs rest hrest rng' :
     il_honest (of_list N.compare (map (fun it => (lp_label (fst (fst it)), it)) items)) ->
     il_agree (of_list N.compare (map (fun it => (lp_label (fst (fst it)), it)) items)) (of_list N.compare cs) ->
     NoDup (map fst lcs) ->
-    (forall lab terms, In (lab, terms) lcs -> unbounded (of_list N.compare (map (fun it => (lp_label (fst (fst it)), it)) items)) terms) ->
     Forall (fun rc => rc <> 0) hchal ->
     (forall pl pt labels lab terms, In (pl, (pt, labels)) (groups qs) -> In lab labels -> In (lab, terms) lcs ->
         lookup_eval lab pt ev
@@ -138,11 +217,11 @@ Section IPALCComplete.
     i_open_combinations d lcs items qs (chal, hchal, rng) = Ok (pfs, (rest, hrest, rng')) ->
     i_check_combinations d lcs cs qs ev pfs chal hchal vtape = Ok (true, rest, hrest, length (groups qs)).
   Proof.
-    intros Hh Ha Hnd Hu Hnz Hcl Lt H. unfold i_open_combinations in H. cbv zeta in H.
+    intros Hh Ha Hnd Hnz Hcl Lt H. unfold i_open_combinations in H. cbv zeta in H.
     set (lm := of_list N.compare (map (fun it => (lp_label (fst (fst it)), it)) items)) in *.
     destruct (ilc_prover_all lm lcs) as [[[ps info] flat]| |] eqn:Ep; cbn [bind] in H; try discriminate.
     unfold i_check_combinations.
-    destruct (i_all_follow lm (of_list N.compare cs) Hh Ha lcs ps info flat ev Hu Ep) as (lcm & Ev & Ec & L1 & L2 & HF).
+    destruct (i_all_follow lm (of_list N.compare cs) Hh Ha lcs ps info flat ev Ep) as (lcm & Ev & Ec & L1 & L2 & HF).
     rewrite Ev. cbn [bind]. rewrite Ec in H |- *. cbn [bind] in H |- *.
     set (bitems := map (fun pc : LPoly * IRand * (N * (IComm * option nat)) =>
                           (lp_label (fst (fst pc)), (fst (fst pc), snd (snd (snd pc)), fst (snd (snd pc)), snd (fst pc)))) (combine ps lcm)) in *.
